@@ -154,6 +154,9 @@ package hamt
 //@ ensures err != nil ==> result == nil
 
 //@ func (*hamt._UnixFSHAMTShard).lookup
+// a key is compared with value links only: a sub-shard link's name is all prefix, so its remainder is
+// the empty string and would "match" the empty key
+//@ at call hamt.MatchKey#1 assert a-name-is-compared-with-value-links-only: isValue
 //@ prop C12
 //@ ensures found-or-error: err == nil ==> result != nil
 //@ ensures the-stores-error-is-returned-as-is: !old(loadFailed) && loadFailed ==> err == lastLoadErr
